@@ -233,7 +233,7 @@ class Driver:
         with open(inp, "w") as f:
             f.write("\n".join(lines) + "\n")
         self.total += 1
-        with open(inp) as fin:
+        with open(inp) as fin, LakeLock():  # serialised with builds: the driver reads the .olean files
             p = subprocess.run(["lake", "env", "lean", "--run", "Driver/Main.lean"], cwd=LEAN, stdin=fin,
                                capture_output=True, text=True, timeout=3000)
         outs = p.stdout.split("\n")
